@@ -85,6 +85,8 @@ impl Stats {
                 format!("{}:{}", e.op, errno_name(e.errno))
             } else if e.ret == 0 && e.op == "write" {
                 "write:zero".to_string()
+            } else if e.ret == 0 && e.op == "read" {
+                "read:eof".to_string()
             } else {
                 format!("{}:short", e.op)
             };
@@ -323,6 +325,26 @@ impl<'a> Worker<'a> {
         let mut nontrivial = false;
         // the files as the commands saw them: initial sandbox content + outputs of earlier steps
         let mut seen_files: BTreeMap<String, Vec<u8>> = materialise(&case.inputs, &self.ctx.corpus).into_iter().filter(|(_, d)| !d.starts_with(crate::case::SYMLINK_MARKER)).map(|(p, d)| (p, d.as_ref().clone())).collect();
+        // a symbolic link in the initial state shows the content of its target
+        for (p, d) in materialise(&case.inputs, &self.ctx.corpus) {
+            if let Some(target) = d.strip_prefix(crate::case::SYMLINK_MARKER) {
+                let target = String::from_utf8_lossy(target).into_owned();
+                let dir = p.rsplit_once('/').map(|(d, _)| d.to_string()).unwrap_or_default();
+                let mut parts: Vec<&str> = if target.starts_with('/') { vec![] } else { dir.split('/').filter(|x| !x.is_empty()).collect() };
+                for seg in target.split('/') {
+                    match seg {
+                        "" | "." => {}
+                        ".." => {
+                            parts.pop();
+                        }
+                        x => parts.push(x),
+                    }
+                }
+                if let Some(content) = seen_files.get(&parts.join("/")).cloned() {
+                    seen_files.insert(p.clone(), content);
+                }
+            }
+        }
         for (i, o) in outs.iter().enumerate() {
             v.extend(term_violations(&self.ctx.cfg, o));
             v.extend(diag_violations(o));
@@ -517,7 +539,10 @@ pub fn only_meta_faults(o: &Outcome) -> bool {
     let mut any = false;
     for e in o.events.iter().filter(|e| e.injected && e.op != "getrandom") {
         any = true;
-        if !is_meta_op(&e.op) {
+        // a premature EOF is the same thing as a shorter file: what the command then makes of the
+        // shorter file is judged by O-term / O-diag (as for storage truncation), not compared
+        let early_eof = e.op == "read" && e.ret == 0;
+        if !is_meta_op(&e.op) && !early_eof {
             return false;
         }
     }
@@ -598,6 +623,10 @@ pub fn enumerate_faults(step_idx: usize, golden: &Outcome, space: &FaultSpace) -
                 errs.extend(["EIO", "EISDIR"]);
                 if e.ret > 1 {
                     shorts.extend([1, e.ret / 2]);
+                }
+                if e.ret > 0 {
+                    // the file ends earlier than its size promised (it shrank after being stat'ed)
+                    out.push(Variant { corrupt: None, plan: Some((step_idx, format!("at={}:zero", e.seq))), tag: format!("read@{}:eof", e.seq) });
                 }
             }
             "creat" if space.write_side => errs.extend(["EACCES", "ENOSPC", "EROFS", "ENOENT"]),
